@@ -32,9 +32,7 @@ def do_import(wt, pid, x):
     assert r.returncode == 0, r.stderr
     try:
         os.makedirs(os.path.join(SCR, "_seed", x), exist_ok=True)
-        for f in os.listdir(src):
-            if os.path.isfile(os.path.join(src, f)):
-                shutil.copy(os.path.join(src, f), os.path.join(SCR, "_seed", x, f))
+        shutil.copytree(src, os.path.join(SCR, "_seed", x), dirs_exist_ok=True)
         rel = f"_seed/{x}/{demo}"
         clean = run_demo(SCR, rel)
         ap = sh(f"git -C {SCR} apply _seed/{x}/patch.diff")
@@ -47,9 +45,7 @@ def do_import(wt, pid, x):
                 print((patched.stdout + patched.stderr)[-800:])
             return 1
         os.makedirs(dst, exist_ok=True)
-        for f in os.listdir(src):
-            if os.path.isfile(os.path.join(src, f)):
-                shutil.copy(os.path.join(src, f), os.path.join(dst, f))
+        shutil.copytree(src, dst, dirs_exist_ok=True, ignore=shutil.ignore_patterns("*.txt", "*.full", "__pycache__"))
         meta = json.load(open(os.path.join(dst, "meta.json")))
         meta["id"] = sid
         meta["base_commit"] = sh(f"git -C {REPO} rev-parse HEAD").stdout.strip()
